@@ -107,13 +107,14 @@ class ParticleReleaser(Iterator[pd.DataFrame]):
         # Every row that releases particles in the simulation period must have a
         # position (missing values are read as NaN)
         releasing = self._df[self._df["mult"] > 0]
-        if releasing[["X", "Y"]].isna().any().any():
+        position = [c for c in ["X", "Y", "Z"] if c in releasing.columns]
+        if releasing[position].isna().any().any():
             logger.critical("Particle release row without position")
             raise SystemExit(3)
 
         # Avoid simulations without particles
-        # Cold start and all particles released before start
-        if len(self._df) == 0 and not warm_start_file:
+        # Cold start and no particle released in the simulation period
+        if self._df["mult"].sum() <= 0 and not warm_start_file:
             logger.critical("All particles released before simulation start")
             raise SystemExit(3)
 
